@@ -376,3 +376,27 @@ MUTANTS["C19"] = [
     M("twin-finally", PIN, "        try:\n            yield self\n        except BaseException:\n            self._io.write_line(\"\")\n\n            self._auto_running.set()\n            self._auto_thread.join()\n\n            raise\n\n        self.finish(end_message, reset_indicator=True)",
       "        ok = False\n        try:\n            yield self\n            ok = True\n        finally:\n            if not ok:\n                self._io.write_line(\"\")\n            self._auto_running.set()\n            self._auto_thread.join()\n\n        self.finish(end_message, reset_indicator=True)", twin=True),
 ]
+
+STC = "src/clikit/adapter/style_converter.py"
+ANF = "src/clikit/formatter/ansi_formatter.py"
+PLF = "src/clikit/formatter/plain_formatter.py"
+IND = "src/clikit/api/io/indent.py"
+
+MUTANTS["C11"] = [
+    M("f9-regression", SEC, "            return super(SectionOutput, self).write(\n                string, flags=flags, new_line=new_line, with_indent=with_indent\n            )", "            return super(SectionOutput, self).write(string, flags=flags)", expect="C11-R1"),
+    M("f10-regression", IOF, "        self._error_output.write_line_raw(string, flags=flags)", "        self._error_output.write_raw(string, flags=flags)", expect="C11-R1"),
+    M("write-line-no-newline", OUT, "self.write(string, flags=flags, new_line=True)", "self.write(string, flags=flags, new_line=False)", expect="C11-R1"),
+    M("double-newline-raw", OUT, 'self._stream.write(to_str(string.rstrip("\\n") + "\\n"))', 'self._stream.write(to_str(string + "\\n\\n"))', expect="C11-R1"),
+    M("underline-wrong-name", STC, 'options.append("underline")', 'options.append("underscore")', expect="C11-R2"),
+    M("dark-not-consulted", STC, '        if style.is_dark():\n            options.append("dark")\n\n', "", expect="C11-R2"),
+    M("blink-as-bold", STC, 'options.append("blink")', 'options.append("bold")', expect="C11-R2"),
+    M("add-style-without-background", ANF, "            style.tag,\n            pastel_style.foreground,\n            pastel_style.background,\n            pastel_style.options,", "            style.tag,\n            pastel_style.foreground,\n            None,\n            pastel_style.options,", expect="C11-R3"),
+    M("exit-guarded-by-exc-type", IND, "        for i, output in enumerate(self._outputs):\n            output._indent = self._original_indents[i]", "        if exc_type is None:\n            for i, output in enumerate(self._outputs):\n                output._indent = self._original_indents[i]", expect="C11-R5"),
+    M("exit-swallows", IND, "            output._indent = self._original_indents[i]\n", "            output._indent = self._original_indents[i]\n\n        return True\n", expect="C11-R5"),
+    M("plain-formatter-colored", PLF, "self._formatter = Pastel(False)", "self._formatter = Pastel(True)", expect="C11-R4"),
+    M("plain-no-style-registration", PLF, "        for tag, style in style_set.styles.items():\n            pastel_style = StyleConverter.convert(style)\n\n            self._formatter.add_style(\n                tag,\n                pastel_style.foreground,\n                pastel_style.background,\n                pastel_style.options,\n            )\n\n    def format", "        pass\n\n    def format", expect="C11-R"),
+    M("unscoped-indent", "src/clikit/ui/components/exception_trace.py", "        with io.increment_indent(2):\n            return self._render_exception(io, self._exception)", "        io.increment_indent(2)\n        return self._render_exception(io, self._exception)", expect="C11-R5"),
+    M("undecorated-formats", OUT, "            if self._format_output:\n                formatted = self.format(string)\n            else:\n                formatted = self.remove_format(string)", "            formatted = self.format(string)", expect="C11-R4"),
+    M("twin-newline-via-local", OUT, 'self._stream.write(to_str(string.rstrip("\\n") + "\\n"))', 'line = string.rstrip("\\n") + "\\n"\n            self._stream.write(to_str(line))', twin=True),
+    M("twin-kw-order", OUT, "self.write(string, flags=flags, new_line=True)", "self.write(string, new_line=True, flags=flags)", twin=True),
+]
